@@ -177,7 +177,8 @@ def check_analytic(rep, prog, m):
             if not (isinstance(ret, tuple) and len(ret) == 2):
                 raise mx.Undecidable('stores %s' % mx.show(ret)[:40])
             rt_ = [mx.show(x) for x in (outcome[1] if isinstance(outcome[1], tuple) else ())]
-            if not (len(rt_) == 2 and all(t_.startswith('_dbeta_cache[') and t_.endswith('][%d]' % k_) for k_, t_ in enumerate(rt_)) and rt_[0][:-3] == rt_[1][:-3]):
+            same_pair = isinstance(outcome[1], tuple) and len(outcome[1]) == 2 and all(a_ is b_ for a_, b_ in zip(outcome[1], ret))       # the very tables it stored
+            if not same_pair and not (len(rt_) == 2 and all(t_.startswith('_dbeta_cache[') and t_.endswith('][%d]' % k_) for k_, t_ in enumerate(rt_)) and rt_[0][:-3] == rt_[1][:-3]):
                 ok = False
                 detd = 'returns %s' % mx.show(outcome[1])[:60]
             grid = 'xx'
